@@ -49,22 +49,31 @@ Section Stream.
     - exists [], l'. split; [reflexivity|]. split; [cbn; lia|]. split; [apply Hfalse; reflexivity|constructor].
   Qed.
 
-  Lemma phi_new s : phi (rd (lx_new s)) = (3 * length s)%nat.
-  Proof. unfold phi, lx_new, rd_new. cbn. lia. Qed.
+  Lemma length_normalize_eof s : (length (normalize_eof s) <= length s + 1)%nat.
+  Proof.
+    unfold normalize_eof. destruct s as [|x r]; [cbn; lia|].
+    destruct (last (x :: r) 0 =? 10); [lia|]. rewrite app_length. cbn [length]. lia.
+  Qed.
+
+  Lemma phi_new s : (phi (rd (lx_new s)) <= 3 * length s + 3)%nat.
+  Proof.
+    unfold phi, lx_new, rd_new. cbn [rd rest hist ungot cur length]. pose proof (length_normalize_eof s). lia.
+  Qed.
 
   (* C03 (a)+(b): every rune sequence is tokenized with fuel linear in its length, into at most
-     3*|s| tokens, and end of stream is answered only when every rune has been consumed *)
+     3*|s|+3 tokens, and end of stream is answered only when every rune has been consumed *)
   Theorem lexer_total s :
-    exists ts lf, lex_all (3 * length s + 1) (3 * length s + 4) (lx_new s) = Some (ts, lf) /\
-                  (length ts <= 3 * length s)%nat /\
+    exists ts lf, lex_all (3 * length s + 4) (3 * length s + 7) (lx_new s) = Some (ts, lf) /\
+                  (length ts <= 3 * length s + 3)%nat /\
                   rest (rd lf) = [] /\ hist (rd lf) = [] /\ ungot (rd lf) = false /\
                   Forall tok_wf ts.
   Proof.
-    destruct (lex_all_ok (3 * length s + 1) (3 * length s + 4) (lx_new s)) as (ts & lf & Hs & Hlen & Heof & Hall).
+    pose proof (phi_new s) as Hphi.
+    destruct (lex_all_ok (3 * length s + 4) (3 * length s + 7) (lx_new s)) as (ts & lf & Hs & Hlen & Heof & Hall).
     - left. reflexivity.
-    - rewrite phi_new. lia.
-    - rewrite phi_new. lia.
-    - exists ts, lf. rewrite phi_new in Hlen. split; [exact Hs|]. split; [exact Hlen|].
+    - lia.
+    - lia.
+    - exists ts, lf. split; [exact Hs|]. split; [lia|].
       unfold rd_eof in Heof. destruct (rest (rd lf)); [|discriminate]. destruct (hist (rd lf)); [|discriminate].
       destruct (ungot (rd lf)); [discriminate|]. repeat split; auto.
   Qed.
